@@ -250,9 +250,29 @@ def bytes_eq(it, a, b):
 
 # ---- method tables -----------------------------------------------------------------------------
 
+def _sock_usable(it, sock):
+    """Ghost life cycle of a client-side socket (objects made by socket.socket(), or shapes that
+    carry the ghost field `connected`): transfer on a socket that was never connected, or that this
+    side has closed, raises OSError.  Accepted connections carry no such field: they are connected
+    by construction."""
+    from .interp import PyRaise
+    if 'connected' not in sock.fields:
+        return
+    bad = V.b_or(b_not(sock.fields['connected']), sock.fields.get('closed', False))
+    if it.ctx.decide(bad):
+        raise PyRaise(OSError, ('socket is not connected',))
+
+
+def sock_connect(it, sock, addr=None):
+    if 'connected' in sock.fields:
+        sock.fields['connected'] = True
+    return None
+
+
 def sock_recv(it, sock, n):
     if n != 1:
         raise EngineError('recv(n) is modelled for n == 1 only')
+    _sock_usable(it, sock)
     data = sock.fields['data']
     pos = sock.fields['pos']
     ne = mk_bool(T(pos) < T(data.n))
@@ -264,6 +284,7 @@ def sock_recv(it, sock, n):
 
 def sock_sendall(it, sock, payload):
     from .strings import XBytes
+    _sock_usable(it, sock)
     if isinstance(payload, XBytes):
         text = payload.s
     elif isinstance(payload, bytes):
@@ -363,6 +384,9 @@ METHODS = {
     ('ssocket', 'accept'): ssocket_accept,
     ('ssocket', 'close'): _none,
     ('ssocket', 'connect'): _none,
+    ('socket', 'connect'): sock_connect,
+    ('socket', 'bind'): _none,
+    ('socket', 'listen'): _none,
     ('socket', 'recv'): sock_recv,
     ('socket', 'sendall'): sock_sendall,
     ('socket', 'close'): lambda it, s: s.fields.__setitem__('closed', True),
@@ -381,6 +405,8 @@ EXT_ASSUMPTIONS = {
     'socket.recv': 'socket.recv(1) returns the next byte of the peer\'s stream, b"" at end of stream',
     'socket.sendall': 'socket.sendall(b) appends b to what the peer reads (no loss, no reordering)',
     'socket.close': 'socket.close() has no effect on data already exchanged',
+    'socket.connect': 'socket.connect() succeeds (a refused connection is outside the properties); '
+                      'send/recv on a socket that was never connected, or was closed, raise OSError',
     'queue.put': 'queue.Queue is a thread-safe FIFO channel: put appends',
     'queue.get': 'queue.Queue.get returns the items put, in order; what another thread puts is an '
                  'arbitrary text (it may block: blocking / progress is not modelled); for the main '
